@@ -28,7 +28,7 @@ prop( 'C05', [ 'S-STATUS', 'D-VALIDATE', 'W-ATTR', 'T-ALLOWED', 'T-TYPENAMES', '
       technique='constant typestate on a statement CFG with exception edges; dominance / must-pass-through with correlated branches; service feasibility by test folding; table interval containment' )
 
 prop( 'C12', [ 'T-CLIENT-TYPES', 'P-BUNDLE', 'P-FRESH', 'T-PATHSYNTAX', 'S-COMPLETE', 'T-OPOFFSET', 'T-PATHDEFAULTS', 'F-CLIENT' ],
-      decides='P-BUNDLE: in connector.issue the keep-collecting condition conjoins the size test with equality of both route_path and '
+      decides='T-PATHSYNTAX also: format_path emits an element index at the component it follows (the symbolic branch flushes a pending index), so Foo[1].Boo formats and parses back to the same segments.  P-BUNDLE: in connector.issue the keep-collecting condition conjoins the size test with equality of both route_path and '
               'send_path with those of the bundle, every yielded record carries ( index, sender_context ) of its wire request, sender_context is '
               'always derived from index, and index advances at most once per operation and after every flushed bundle; T-PATHSYNTAX: every '
               'delimiter format_path emits (@ / [ - ] . 0x) is recognised by parse_path/parse_path_elements/parse_path_component/parse_int; '
@@ -38,7 +38,7 @@ prop( 'C12', [ 'T-CLIENT-TYPES', 'P-BUNDLE', 'P-FRESH', 'T-PATHSYNTAX', 'S-COMPL
       technique='table extraction from AST + interval containment; guard-shape checks' )
 
 prop( 'C16', [ 'T-RESERVED', 'D-DELEGATE', 'D-RESOLVE', 'D-UNPACK' ],
-      decides='T-RESERVED: every non-dunder name that ordinary attribute lookup finds on a dotdict before __getattr__ (methods '
+      decides='T-RESERVED also: the leaf store and the creation of an interior level ( super().setdefault( name, dotdict() )) are both dominated, on the CFG of __setitem__, by the refusing test of the name against __invalid_keys__ / the dunder prefix.  T-RESERVED: every non-dunder name that ordinary attribute lookup finds on a dotdict before __getattr__ (methods '
               'and class attributes of dotdict_base plus dict\'s public API) is refused as a key by the guarded leaf store; '
               'D-DELEGATE: attribute access, get, setdefault and membership are defined through __getitem__/__setitem__ and all '
               'accessors split dotted keys with _resolve.  D-RESOLVE also: a first segment cut inside an index expression is extended exactly while its brackets are unbalanced (continuation test evaluated on sample segments).  D-UNPACK: every two-target unpack of <x>.split( <sep>, 1 ) in dotdict.py is controlled by a test `<sep> in <x>` on the unmodified <x> (a path whose last segment lacks the separator must resolve or raise KeyError, never ValueError).',
@@ -156,7 +156,7 @@ prop( 'C04', [ 'F-FRAG', 'F-STATUS', 'D-VALIDATE', 'W-ATTR', 'S-EXT', 'F-CLIENT'
                 'two-cell decision table for the completion status; must-pass-through over a statement CFG' )
 
 prop( 'C11', [ 'X-LOOKUP', 'X-FROMREGEX', 'X-TERMINAL', 'G-PRIMS' ],
-      decides='structural clauses of the translation and of its run-time lookup, each a necessary condition of "accepts exactly the '
+      decides='X-FROMREGEX also: whether a symbol\'s target state is dead is consulted ( states.get( nxt ) ... ) on every path from the symbol loop to the creation of an intermediate state of a multi-symbol encoding - the leading bytes of a symbol that cannot continue the sentence are not consumed.  structural clauses of the translation and of its run-time lookup, each a necessary condition of "accepts exactly the '
               'language".  X-LOOKUP (state.__getitem__, over its CFG): the transition table is consulted with the ENCODED symbol; every '
               'path to the ANY-wildcard lookup and to the no-input lookup has first tried the exact symbol, whose KeyError falls through; '
               'recognizers precede the wildcard; the wildcard is guarded by "an input symbol is present"; the no-input lookup is the '
@@ -176,7 +176,7 @@ prop( 'C11', [ 'X-LOOKUP', 'X-FROMREGEX', 'X-TERMINAL', 'G-PRIMS' ],
                 'finite boolean domains; semantic evaluation of the ordering key; AST idioms with role-following wildcards' )
 
 prop( 'C02', [ 'G-CHUNK', 'G-FRAME', 'P-ACT', 'P-ONE', 'P-CHAIN', 'R-ISO', 'N-RECV', 'R-SENT', 'R-PROGRESS', 'G-PRIMS', 'E-CONTAIN' ],
-      decides='G-CHUNK: in the stream-fed machines (enip_machine incl. enip_header; tnet_machine) no state has both an input edge and a '
+      decides='P-ACT also: on the branch where the client\'s non-blocking receive returned nothing ( <rcvd> is None, source empty ) the framing-engine loop is unreachable - a poll between two chunks of one frame cannot destroy the framing.  G-CHUNK: in the stream-fed machines (enip_machine incl. enip_header; tnet_machine) no state has both an input edge and a '
               'None edge and no transition predicate inspects the source - i.e. no state\'s successor depends on whether the next byte has '
               'arrived yet (necessary for chunk independence); G-FRAME: the header sub-graph is the single unconditional chain of the six '
               'spec fields (24 octets, terminal only after the last), the payload is octets( repeat=<header length> ), terminal with no '
@@ -243,7 +243,7 @@ prop( 'C09', [ 'R-LOCK-1', 'R-LOCK-6', 'R-LOCK-2', 'R-LOCK-3', 'R-LOCK-4', 'R-LO
       thorough_rules=[] )
 
 prop( 'C13', [ 'S-COMPLETE', 'P-MATCH', 'P-FRESH', 'P-BUNDLE', 'P-DISCARD', 'P-ACT', 'N-RECV', 'P-GATEWAY', 'P-ROUTE', 'T-CONTEXT', 'P-POLL' ],
-      decides='S-COMPLETE (sibling cross-check): every harvesting driver operate() can return (synchronous, pipeline) compares, after its '
+      decides='P-GATEWAY also: proxy.close_gateway stores gateway = None on every path from close(), including those on which close() raises (a connected gateway raises on a dead connection).  P-MATCH also: every index_to_sender_context derives the context from the request index (client.implicit\'s constant context is known finding AA).  P-ACT also: client.__next__ never enters its framing engine on the branch where the non-blocking receive returned nothing.  S-COMPLETE (sibling cross-check): every harvesting driver operate() can return (synchronous, pipeline) compares, after its '
               'harvest loop, a counter fed by the issue stream with a counter fed by the harvested results and raises on a mismatch - so '
               'the client can never silently return fewer results than operations; P-MATCH: in harvest every yield is dominated by an assert '
               'that the reply\'s sender context equals the request\'s and reply.service == request.service | 0x80, requests and replies being '
